@@ -222,6 +222,10 @@ pub broadcast axiom fn ax_exp_ln(x: real) requires x > 0real ensures exp_spec(#[
 pub axiom fn ax_exp_mono(x: real, y: real) requires x <= y ensures exp_spec(x) <= exp_spec(y);
 pub axiom fn ax_exp_add(x: real, y: real) ensures exp_spec(x + y) == exp_spec(x) * exp_spec(y);
 pub axiom fn ax_ln_mul(x: real, y: real) requires x > 0real, y > 0real ensures ln_spec(x * y) == ln_spec(x) + ln_spec(y);
+pub uninterp spec fn powf_spec(a: real, e: real) -> real;
+pub uninterp spec fn log10_spec(a: real) -> real;
+pub uninterp spec fn log2_spec(a: real) -> real;
+pub uninterp spec fn cbrt_spec(a: real) -> real;
 pub uninterp spec fn floor_spec(a: real) -> int;
 pub broadcast axiom fn ax_floor(x: real) ensures (#[trigger] floor_spec(x)) as real <= x, x < (floor_spec(x) + 1) as real;
 pub broadcast proof fn lemma_floor_int(i: int) ensures #[trigger] floor_spec(i as real) == i { ax_floor(i as real); }
@@ -319,6 +323,21 @@ impl R {
     pub fn is_sign_positive(self) -> (r: bool) ensures self.v() > 0real ==> r, self.v() < 0real ==> !r { self.x.is_sign_positive() }
     #[verifier::external_body]
     pub fn mul_add(self, a: R, b: R) -> (r: R) ensures r.v() == rmul(self.v(), a.v()) + b.v() { R { x: self.x.mul_add(a.x, b.x) } }
+    #[verifier::external_body]
+    pub fn clamp(self, lo: R, hi: R) -> (r: R) requires lo.v() <= hi.v() ensures r.v() == (if self.v() < lo.v() { lo.v() } else if self.v() > hi.v() { hi.v() } else { self.v() }) { R { x: self.x.clamp(lo.x, hi.x) } }
+    #[verifier::external_body]
+    pub fn hypot(self, other: R) -> (r: R) ensures r.v() == sqrt_spec(rmul(self.v(), self.v()) + rmul(other.v(), other.v())) { R { x: self.x.hypot(other.x) } }
+    #[verifier::external_body]
+    pub fn copysign(self, sign: R) -> (r: R) ensures sign.v() > 0real ==> r.v() == (if self.v() >= 0real { self.v() } else { -self.v() }), sign.v() < 0real ==> r.v() == (if self.v() >= 0real { -self.v() } else { self.v() }) { R { x: self.x.copysign(sign.x) } }
+    // powers and logarithms in other bases: some (uninterpreted) function of the arguments
+    #[verifier::external_body]
+    pub fn powf(self, e: R) -> (r: R) ensures r.v() == powf_spec(self.v(), e.v()) { R { x: self.x.powf(e.x) } }
+    #[verifier::external_body]
+    pub fn log10(self) -> (r: R) ensures r.v() == log10_spec(self.v()) { R { x: self.x.log10() } }
+    #[verifier::external_body]
+    pub fn log2(self) -> (r: R) ensures r.v() == log2_spec(self.v()) { R { x: self.x.log2() } }
+    #[verifier::external_body]
+    pub fn cbrt(self) -> (r: R) ensures r.v() == cbrt_spec(self.v()) { R { x: self.x.cbrt() } }
     #[verifier::external_body]
     pub fn max(self, other: R) -> (r: R) ensures r.v() == (if self.v() >= other.v() { self.v() } else { other.v() }) { R { x: self.x.max(other.x) } }
 }
